@@ -22,12 +22,19 @@ type scriptConn struct {
 	closed   bool
 	failAt   int // Write call (1-based) that fails; 0 never
 	gate     chan struct{} // if non-nil, end of stream is reported only after the gate is closed
+	endErr   error         // error reported at the end of the stream (default io.EOF)
 }
 
 func (s *scriptConn) Read(p []byte) (int, error) {
 	if len(s.data) == 0 {
 		if s.gate != nil {
 			<-s.gate
+		}
+		if s.closed {
+			return 0, errors.New("read: use of closed network connection")
+		}
+		if s.endErr != nil {
+			return 0, s.endErr
 		}
 		return 0, io.EOF
 	}
@@ -50,7 +57,32 @@ func (s *scriptConn) Write(p []byte) (int, error) {
 	}
 	return len(p), nil
 }
-func (s *scriptConn) Close() error                       { s.closed = true; return nil }
+// release lets the scripted stream end (idempotent).
+func (s *scriptConn) release() {
+	if s.gate != nil {
+		select {
+		case <-s.gate:
+		default:
+			close(s.gate)
+		}
+	}
+}
+
+// Close marks the connection closed and, like a real socket, unblocks a pending Read.
+func (s *scriptConn) Close() error {
+	if s.closed {
+		return errors.New("close: use of closed network connection")
+	}
+	s.closed = true
+	if s.gate != nil {
+		select {
+		case <-s.gate:
+		default:
+			close(s.gate)
+		}
+	}
+	return nil
+}
 func (s *scriptConn) LocalAddr() net.Addr                { return nil }
 func (s *scriptConn) RemoteAddr() net.Addr               { return nil }
 func (s *scriptConn) SetDeadline(t time.Time) error      { return nil }
